@@ -44,7 +44,8 @@ def _prefixes(d: str) -> List[str]:
     return [".".join(parts[:i]) for i in range(1, len(parts) + 1)]
 
 
-def expr_tainted(e: ast.AST, tainted: Iterable[str], sanitizers: Iterable[str] = (), source_calls: Iterable[str] = (), expr_hook: Optional[Callable[[ast.AST], Optional[bool]]] = None) -> bool:
+def expr_tainted(e: ast.AST, tainted: Iterable[str], sanitizers: Iterable[str] = (), source_calls: Iterable[str] = (), expr_hook: Optional[Callable[[ast.AST], Optional[bool]]] = None,
+                 cond_cleaner: Optional[Callable[[ast.AST, bool, Set[str]], Set[str]]] = None) -> bool:
     """``e`` may carry tainted data: it mentions a tainted path outside any sanitizer call.
     ``expr_hook(sub_expression)`` may decide a sub-expression (True/False) or return None."""
     tainted = set(tainted)
@@ -56,6 +57,11 @@ def expr_tainted(e: ast.AST, tainted: Iterable[str], sanitizers: Iterable[str] =
             r = expr_hook(x)
             if r is not None:
                 return r
+        if isinstance(x, ast.IfExp) and cond_cleaner is not None:
+            # `a if test else b`: each arm is judged with what its side of the test proves
+            t_true = tainted - set(cond_cleaner(x.test, True, set(tainted)))
+            t_false = tainted - set(cond_cleaner(x.test, False, set(tainted)))
+            return expr_tainted(x.body, t_true, sanitizers, source_calls, expr_hook, cond_cleaner) or expr_tainted(x.orelse, t_false, sanitizers, source_calls, expr_hook, cond_cleaner)
         if isinstance(x, ast.Call) and q.call_attr(x) in DECODERS:
             # a value known only to be "not a str" (e.g. bytes) becomes text again when decoded
             operand = x.func.value if (isinstance(x.func, ast.Attribute) and x.func.attr == "decode") else (x.args[0] if x.args else None)
@@ -78,6 +84,36 @@ def expr_tainted(e: ast.AST, tainted: Iterable[str], sanitizers: Iterable[str] =
         return any(rec(c) for c in ast.iter_child_nodes(x))
 
     return rec(e)
+
+
+def cond_cleaner_from(fi, clean_on_edge) -> Optional[Callable[[ast.AST, bool, Set[str]], Set[str]]]:
+    """What a *value-position* test proves (conditional expressions): and/or/not are split like the CFG splits
+    statement tests, a tested local is looked through, atoms go to the same ``clean_on_edge`` callback."""
+    if clean_on_edge is None:
+        return None
+
+    def go(test: ast.AST, pol: bool, tainted: Set[str], depth: int = 6) -> Set[str]:
+        if depth <= 0:
+            return set()
+        if isinstance(test, ast.UnaryOp) and isinstance(test.op, ast.Not):
+            return go(test.operand, not pol, tainted, depth - 1)
+        if isinstance(test, ast.BoolOp):
+            conj = isinstance(test.op, ast.And)
+            if conj == pol:  # all operands have polarity `pol`
+                out: Set[str] = set()
+                for v in test.values:
+                    out |= go(v, pol, tainted, depth - 1)
+                return out
+            return set()
+        if isinstance(test, ast.Name) and isinstance(fi, FuncInfo):
+            from .x_objalias import through_local
+
+            r = through_local(fi, test)
+            if r is not test:
+                return go(r, pol, tainted, depth - 1)
+        return set(clean_on_edge(_FakeTest(test), "true" if pol else "false", tainted) or ())
+
+    return go
 
 
 def _targets(t: ast.AST) -> List[Tuple[str, bool]]:
@@ -140,8 +176,10 @@ def flow_taint(
     sanitizers = set(sanitizers)
     source_calls = tuple(source_calls)
 
+    cc = cond_cleaner_from(fi_or_cfg if isinstance(fi_or_cfg, FuncInfo) else None, clean_on_edge)
+
     def is_t(e, st):
-        return expr_tainted(e, tainted_of(st), sanitizers, source_calls, expr_hook)
+        return expr_tainted(e, tainted_of(st), sanitizers, source_calls, expr_hook, cc)
 
     def assign(st: FrozenSet[str], t: ast.AST, val: Optional[ast.AST], val_tainted: bool) -> FrozenSet[str]:
         cur = set(st)
@@ -328,12 +366,16 @@ def regex_guard(repo: Repo, fi: FuncInfo, test: ast.AST) -> Optional[Guard]:
     """Recognise an atomic branch test that applies a regex to a value."""
     truthy = True
     t = test
+    if isinstance(t, ast.NamedExpr):  # (m := P.search(x)) — the binding does not change what is tested
+        t = t.value
     if isinstance(t, ast.Compare) and len(t.ops) == 1 and isinstance(t.comparators[0], ast.Constant) and t.comparators[0].value is None:
         if isinstance(t.ops[0], ast.Is):
             truthy = False
         elif not isinstance(t.ops[0], ast.IsNot):
             return None
         t = t.left
+    if isinstance(t, ast.NamedExpr):
+        t = t.value
     if not isinstance(t, ast.Call) or not isinstance(t.func, ast.Attribute):
         return None
     mode = t.func.attr
